@@ -22,7 +22,13 @@ RULE = (
     'logs; the logged operations of kinds outside S are exactly the client '
     'calls, in order (the engine performs nothing that was not automated). '
     'One hand in ten is 7-8 handed stud played passively to seventh street '
-    '(deck exhaustion: community card instead of hole cards). '
+    '(deck exhaustion: community card instead of hole cards); one in ten a '
+    'cash game with manual partial / face-down shows and automated hand '
+    'killing. The shuffle REQUESTS (multiset handed to the shuffler) made '
+    'by the constructor and the operations of the automated run must equal, '
+    'in order, those made by the manual twin (the harness\'s own queries '
+    'are not recorded): a hidden extra reshuffle would desynchronise a real '
+    'random generator. '
     'Non-trivial = S is a proper non-empty subset; distinct by (game, '
     'players, S, mode, boards, operation-kind sequence).')
 ASSUMPTIONS = [
@@ -223,6 +229,16 @@ def pol_tweak(pol, cfg, rng):
         pol['fork_p'] = 0.03     # continue on a deepcopy mid-hand
     if pol['deal'] == 'unknown':
         pol['deal'] = 'default'
+    if rng.random() < 0.1:
+        # cash game, showing is a player decision (partial shows, hands kept
+        # face down), killing the beaten hands is automated
+        pol['partial_show'] = True
+        pol['empty_show'] = True
+        cfg['mode'] = 'CASH_GAME'
+        cfg['autos'] = [a for a in cfg['autos']
+                        if a != 'HOLE_CARDS_SHOWING_OR_MUCKING']
+        if 'HAND_KILLING' not in cfg['autos'] and rng.random() < 0.7:
+            cfg['autos'].append('HAND_KILLING')
     if cfg.get('game') in gen.STUD_GAMES and cfg['n'] >= 7:
         pol['policy'] = 'passive'
 
